@@ -26,6 +26,7 @@ import (
 	logslog "log/slog"
 	"os"
 	"path/filepath"
+	"reflect"
 	"regexp"
 	"runtime"
 	"sort"
@@ -52,6 +53,26 @@ var (
 	// show as the following line)
 	c14After int
 )
+
+// c14LineSite is a wrapper chain whose functions sit behind //line directives naming `file`
+// (generated: fam_caller_lines.go).
+type c14LineSite struct {
+	id    string // name of the chain in the cells (LineSites of spec/Caller.tla)
+	cls   string // character class the file name carries
+	file  string // the file name as written in the directives
+	k     int
+	chain [c14LineDepth + 1]func() // chain[j]: the j-th //go:noinline wrapper (chain[1] calls c14Next)
+	sites map[string]func()        // entry point -> issuing function
+}
+
+func c14LineSiteOf(id string) *c14LineSite {
+	for _, s := range c14LineSites {
+		if s.id == id {
+			return s
+		}
+	}
+	return nil
+}
 
 type c14site struct {
 	inl [c14InlDepth + 1]func() // inl[d]: top of the static, inlinable chain with d wrappers
@@ -176,6 +197,14 @@ type c14Cell struct {
 	Skip  int    `json:"skip"`
 	Other int    `json:"other"`
 	Depth int    `json:"depth"`
+	Site  string `json:"site"` // "go" / "": ordinary source file; else the id of a //line chain
+}
+
+func (c *c14Cell) line() *c14LineSite {
+	if c.Site == "" || c.Site == "go" {
+		return nil
+	}
+	return c14LineSiteOf(c.Site)
 }
 
 type c14TraceLine struct {
@@ -190,15 +219,16 @@ type c14Caller struct {
 }
 
 type c14Detail struct {
-	ID      int        `json:"id"`
-	Shape   string     `json:"shape"`   // format of the record as decoded: json / logfmt / color / none
-	Writes  int        `json:"writes"`  // Write calls the cell caused
-	Caller  *c14Caller `json:"caller"`  // decoded caller member (nil: none)
-	Got     c14Got     `json:"got"`     //
-	GotFunc string     `json:"gotfunc"` // function of the stack frame the caller member names ("" if none)
-	User    []c14Frame `json:"user"`    // user frames of the real stack, innermost first
-	Record  string     `json:"record"`  //
-	HErr    string     `json:"herr"`    // harness-side problem (not a statement about the library)
+	ID       int        `json:"id"`
+	Shape    string     `json:"shape"`              // format of the record as decoded: json / logfmt / color / none
+	Writes   int        `json:"writes"`             // Write calls the cell caused
+	Caller   *c14Caller `json:"caller"`             // decoded caller member (nil: none)
+	Got      c14Got     `json:"got"`                //
+	GotFunc  string     `json:"gotfunc"`            // function of the stack frame the caller member names ("" if none)
+	User     []c14Frame `json:"user"`               // user frames of the real stack, innermost first
+	Record   string     `json:"record"`             //
+	HErr     string     `json:"herr"`               // harness-side problem (not a statement about the library)
+	SiteFile string     `json:"sitefile,omitempty"` // file name of the //line chain (quoted)
 }
 
 func c14Main(args []string) int {
@@ -208,7 +238,21 @@ func c14Main(args []string) int {
 			names = append(names, k)
 		}
 		sort.Strings(names)
+		var lineSites []map[string]any
+		var lineEps []string
+		for _, ls := range c14LineSites {
+			// what the runtime reports for the first issuing function of the chain (binding check)
+			lineSites = append(lineSites, map[string]any{"id": ls.id, "cls": ls.cls, "file": strconv.QuoteToASCII(ls.file),
+				"runtime": strconv.QuoteToASCII(c14FuncFile(ls.sites["Info"]))})
+			if lineEps == nil {
+				for ep := range ls.sites {
+					lineEps = append(lineEps, ep)
+				}
+				sort.Strings(lineEps)
+			}
+		}
 		b, _ := json.Marshal(map[string]any{"eps": names, "inl_depth": c14InlDepth, "no_depth": c14NoDepth,
+			"line_sites": lineSites, "line_eps": lineEps, "line_depth": c14LineDepth,
 			"hist_withs": clr14Withs, "hist_touches": clr14Touches, "hist_fams": clr14Fams, "hist_eps": clr14Eps})
 		fmt.Println(string(b))
 		return 0
@@ -252,6 +296,60 @@ func c14Main(args []string) int {
 		return 2
 	}
 	return 0
+}
+
+// c14FuncFile: the file the symbol table has for the body of f (the line after its entry).
+func c14FuncFile(f func()) string {
+	if f == nil {
+		return ""
+	}
+	fn := runtime.FuncForPC(reflect.ValueOf(f).Pointer())
+	if fn == nil {
+		return ""
+	}
+	// walk a few bytes into the function: the prologue belongs to the func line, the body to the directive
+	for off := uintptr(0); off < 256; off++ {
+		file, _ := fn.FileLine(fn.Entry() + off)
+		if !strings.HasSuffix(file, ".go") || !strings.Contains(file, "fam_caller_lines") {
+			return file
+		}
+	}
+	file, _ := fn.FileLine(fn.Entry())
+	return file
+}
+
+// c14SafetyFiles: the documented path hardening of a frame's file (every outcome of a few
+// evaluations - the hardening walks a Go map).
+func c14SafetyFiles(file string) []string {
+	out := []string{slog.Safety(file)}
+	for i := 0; i < 6; i++ {
+		f := slog.Safety(file)
+		dup := false
+		for _, x := range out {
+			dup = dup || x == f
+		}
+		if !dup {
+			out = append(out, f)
+		}
+	}
+	return out
+}
+
+// c14ColorCallerOf: the coloured line ends in " file:line func"; a file name may hold blanks,
+// quotes, anything - so the frames of the real stack are the candidates: the first one whose
+// rendering (file after the documented hardening) is the end of the line.
+func c14ColorCallerOf(p []byte, stack []c14Frame) *c14Caller {
+	raw := strings.TrimRight(string(p), "\r\n")
+	stripped := c14SGR.ReplaceAllString(raw, "")
+	for _, f := range stack {
+		for _, file := range c14SafetyFiles(f.File) {
+			want := " " + file + ":" + strconv.Itoa(f.Line) + " " + c14Short(f.Func)
+			if strings.HasSuffix(stripped, want) || strings.HasSuffix(stripped, c14SGR.ReplaceAllString(want, "")) {
+				return &c14Caller{File: file, Line: f.Line, Func: c14Short(f.Func)}
+			}
+		}
+	}
+	return nil
 }
 
 // c14Defaults points the package-level default destinations at the recorder (children and
@@ -417,10 +515,22 @@ func c14Issue(c *c14Cell, d *c14Detail, checkFmt bool) {
 		return
 	}
 	d.Got = c14Got{K: "none", I: -1}
+	ls := c.line()
+	if c.Site != "" && c.Site != "go" && (ls == nil || ls.sites[c.Ep] == nil || c.Inl || c.Depth > c14LineDepth) {
+		d.HErr = "//line chain not available in the worker"
+		return
+	}
 
 	// -- the chain
 	var top func()
-	if c.Inl {
+	if ls != nil { // every frame of the chain sits behind a //line directive
+		d.SiteFile = strconv.QuoteToASCII(ls.file)
+		c14Next = ls.sites[c.Ep]
+		top = c14Next
+		if c.Depth > 0 {
+			top = ls.chain[c.Depth]
+		}
+	} else if c.Inl {
 		top = site.inl[c.Depth]
 	} else {
 		c14Next = site.no
@@ -452,6 +562,11 @@ func c14Issue(c *c14Cell, d *c14Detail, checkFmt bool) {
 		return
 	}
 	d.Shape, d.Caller = c14Decode(c14rec.payload)
+	if ls != nil && d.Shape == "color" {
+		if cl := c14ColorCallerOf(c14rec.payload, c14rec.stack); cl != nil {
+			d.Caller = cl
+		}
+	}
 	if checkFmt && d.Shape != c.Fmt {
 		d.HErr = "record is not in the format of the cell"
 		return
@@ -464,6 +579,13 @@ func c14Issue(c *c14Cell, d *c14Detail, checkFmt bool) {
 		fn := f.Func
 		if d.Shape == "color" { // the console line prints the function without its import path
 			fn = c14Short(fn)
+		}
+		if ls != nil { // the file EXACTLY as the documented hardening leaves what the runtime reports
+			ok := false
+			for _, file := range c14SafetyFiles(f.File) {
+				ok = ok || file == d.Caller.File
+			}
+			return ok && f.Line == d.Caller.Line && fn == d.Caller.Func
 		}
 		return filepath.Base(f.File) == filepath.Base(d.Caller.File) && f.Line == d.Caller.Line && fn == d.Caller.Func
 	}
@@ -501,11 +623,16 @@ func c14CheckChain(c *c14Cell, user []c14Frame) string {
 		return fmt.Sprintf("real stack has %d user frames, cell wants %d", len(user), c.Depth+2)
 	}
 	id := c14Ident(c.Ep)
+	ls := c.line()
 	for j, f := range user {
 		var want string
 		switch {
 		case j == c.Depth+1:
 			want = "main.c14drive"
+		case ls != nil && j == 0:
+			want = fmt.Sprintf("main.c14sL%d_%s", ls.k, id)
+		case ls != nil:
+			want = fmt.Sprintf("main.c14wL%d_%d", ls.k, j)
 		case j == 0 && c.Inl:
 			want = "main.c14sI_" + id
 		case j == 0:
